@@ -64,7 +64,7 @@ Drift == {i \in 1..Len(Recs) : ~Conf(Recs[i])}
 
 ASSUME ndJsonSerialize(IOEnv.VERDICT_FILE, <<[n |-> Len(Recs), bad |-> Bad, drift |-> Drift]>>)
 
-TInit == XIdle /\ SIdle /\ RIdle /\ PIdle
+TInit == XIdle /\ SIdle /\ RIdle /\ PIdle /\ CIdle
 TNext == UNCHANGED vars
 TSpec == TInit /\ [][TNext]_vars
 =============================================================================
